@@ -306,6 +306,26 @@ class Run:
                 self.model.classes.add('relayout')
                 if op.get('shrinkvs'):
                     self.model.classes.add('relayout-declared-size-too-small')
+        if op.get('foreign') and not self.model.has['udf'] and self.model.boot is None and self.model.hybrid is None:
+            # stand-in for a foreign image: the same logical content mastered from scratch by vf/indep/remaster.py
+            from vf.indep import remaster
+            try:
+                alt = remaster.remaster(img, op['foreign'])
+            except remaster.SelfCheckFailed:
+                alt = None
+                self.model.classes.add('remaster-selfcheck-failed')
+            except Exception:  # noqa  (a defect of the harness module, never a violation)
+                alt = None
+                self.model.classes.add('remaster-crashed')
+            if alt is not None:
+                img = alt
+                self.foreign_img = alt
+                self.model.classes.add('foreign-remaster')
+                self.model.classes.add('foreign-remaster/family-%d' % op['foreign'].get('family', 0))
+                if op['foreign'].get('budget', 255) < 200:
+                    self.model.classes.add('foreign-remaster/small-in-record-budget')
+            else:
+                self.model.classes.add('foreign-remaster-ineligible')
         new = open_image(img)
         if isinstance(new, Exception):
             self.problem('reopen/exception/%s' % exc_signature(new), 'reopen-raised',
